@@ -35,6 +35,8 @@ func main() {
 		err = cmdLockstep(os.Args[2:])
 	case "limits":
 		err = cmdLimits(os.Args[2:])
+	case "fidelity":
+		err = cmdFidelity(os.Args[2:])
 	default:
 		err = fmt.Errorf("unknown subcommand %q", os.Args[1])
 	}
